@@ -141,11 +141,15 @@ Terminate == /\ phase = "exec" /\ err = "none" /\ Finished
              /\ phase' = "done" /\ obs' = "end" /\ UNCHANGED <<i, k, m1, tf, fills, err>> /\ H("t")
 
 Edge == Export => PrintT(<<"EDGE", ToJson([hist |-> hist', obs |-> obs', err |-> err'])>>)
-Next == /\ \/ (Warm > 0 /\ Warmup) \/ BeginSim
-           \/ AddMinute \/ Fill \/ EndMatch
-           \/ BeginChunk \/ FFill \/ FEndMinute \/ AddChunk
-           \/ Terminate
-        /\ Edge
+WarmupStart == Warm > 0 /\ Warmup
+\* NextM (plain disjunction: TLC reports coverage per action) is used for model checking, Next (the same plus the
+\* EDGE export) for exporting the transitions
+NextM == \/ WarmupStart \/ BeginSim
+         \/ AddMinute \/ Fill \/ EndMatch
+         \/ BeginChunk \/ FFill \/ FEndMinute \/ AddChunk
+         \/ Terminate
+Next == NextM /\ Edge
+SpecM == Init /\ [][NextM]_vars
 Spec == Init /\ [][Next]_vars
 
 \* ---- reads: transcription of CandlesState.get_candles / get_current_candle ---------------------
